@@ -12,8 +12,9 @@
     dsrmath.atomic_distance (cell given, no shortest_dist)   -> `atomicDistSq`, `atomicDistance`
     CELL.astar/bstar/cstar, CELL.N                           -> `recip`, `nMat`
     Atom.ucif / ustar / u_cart / set_ueq                     -> `ucif`, `ustar`, `ucart`, `ueqAniso`, `isoBranch`
-        (as repaired by fixes/C12_1, C12_2; the code as it was: `ustarOld`, `ucartOld`, `isoBranchOld`)
-    misc.qr_decomposition / eigenvals, Atom.is_npd           -> `qrDecomp`, `eigenvals`
+    Atom.is_npd (leading minors of u_cart)                   -> `npdMinors`
+        (all as repaired by fixes/C12_1, C12_2, C12_3; the code as it was: `ustarOld`, `ucartOld`, `isoBranchOld`,
+         and for is_npd the 100 unshifted QR steps of misc.qr_decomposition / misc.eigenvals: `qrDecomp`, `eigenvals`)
   `math.cos/sin` VALUES enter as fields of `Cell` (`ca … sg`), `math.sqrt` as a function parameter; the proof
   file states their algebraic relations as hypotheses.
 
@@ -188,7 +189,13 @@ def ueqAniso (sqrt : K → K) (c : Cell K) (u : U6 K) : K :=
 def ueqAnisoOld (sqrt : K → K) (c : Cell K) (u : U6 K) : K :=
   trace (ucartOld (orthoM sqrt c) (nMat sqrt c) (ucif u)) / 3
 
-/-! ### `misc.qr_decomposition`, `misc.eigenvals` (unshifted QR iteration, Gram–Schmidt as coded) -/
+/-- repaired `Atom.is_npd`: the three leading principal minors of `u_cart.values` as coded
+    (`u[0][0]`, `u[0][0]*u[1][1] - u[0][1]*u[1][0]`, `misc.determinante(u)`); the atom is reported
+    non-positive-definite unless all three are `> 0` -/
+def npdMinors (m : M3 K) : V3 K := ⟨m.r0.x, m.r0.x * m.r1.y - m.r0.y * m.r1.x, det m⟩
+
+/-! ### `misc.qr_decomposition`, `misc.eigenvals` (unshifted QR iteration, Gram–Schmidt as coded):
+    what `Atom.is_npd` used before the repair -/
 
 /-- one `qr_decomposition`: returns `(Q_transposed, R)`; `none` is Python's ZeroDivisionError (`norm == 0`) -/
 def qrDecomp (sqrt : K → K) (isZero : K → Bool) (m : M3 K) : Option (M3 K × M3 K) :=
